@@ -284,14 +284,25 @@ func c08(w *core.World, r *core.Report) {
 	consultsInReturn(w, r, "CONSULTS", w.Func("pkg/tree", "choiceCasesResolver", "GetSkipElements"), []consult{{Calls: []string{"tree.choiceCasesResolver.getBestCaseName"}, Why: "members of every other case are skipped"}, {Field: "tree.choiceCasesResolver.elementToCaseMapping", Why: "which case an element belongs to"}})
 	{
 		// populate: SetValue's value argument depends on both sources
-		for _, c := range core.CallsTo(pop, "tree.choiceCasesResolver.SetValue") {
+		svs := core.CallsTo(pop, "tree.choiceCasesResolver.SetValue")
+		anyTree := false
+		for _, c := range svs {
+			in := append(storedInputs(c, "tree.choicesCaseElement.value"), storedInputs(c, "tree.choicesCaseElement.new")...)
+			if len(in) > 0 && core.BackwardSlice(pop, in, []ssa.Instruction{c}).HasCallTo("tree.Entry.getHighestPrecedenceValueOfBranch") {
+				anyTree = true
+			}
+		}
+		for _, c := range svs {
 			in := append(storedInputs(c, "tree.choicesCaseElement.value"), storedInputs(c, "tree.choicesCaseElement.new")...)
 			if len(in) == 0 {
 				continue
 			}
 			sl := core.BackwardSlice(pop, in, []ssa.Instruction{c})
 			r.Check(sl.HasCallTo("tree.TreeCacheClient.GetBranchesHighesPrecedence"), "CONSULTS", core.Site(pop, "value from the index"), w.InstrPos(c), "stored content of other owners")
-			r.Check(sl.HasCallTo("tree.Entry.getHighestPrecedenceValueOfBranch"), "CONSULTS", core.Site(pop, "value from the tree"), w.InstrPos(c), "content of the transaction")
+			// the tree's value, or: this SetValue is the branch for a member that has no entry in the tree (decided by
+			// the child lookup) while another SetValue takes the tree's value into account
+			fromTree := sl.HasCallTo("tree.Entry.getHighestPrecedenceValueOfBranch") || (anyTree && sl.HasCallTo("tree.childMap.GetEntry"))
+			r.Check(fromTree, "CONSULTS", core.Site(pop, "value from the tree"), w.InstrPos(c), "content of the transaction")
 		}
 	}
 	// ---- BRANCH-PRIO-WHOLE
